@@ -348,8 +348,8 @@ def run_kernel_corr(rng, nprog, profile, name, malformed_every=7, per_file=40):
     """generate nprog programs, evaluate the FNum model on them inside coqc, compare.
     Returns the dict check.py expects from a correspondence suite."""
     import collections, hashlib
-    sessions = [gen_program(rng, 1 + i, malformed=(i % malformed_every == malformed_every - 1), profile=profile)
-                for i in range(nprog)]
+    sessions = scenarios(rng) + [gen_program(rng, 1 + i, malformed=(i % malformed_every == malformed_every - 1), profile=profile)
+                                 for i in range(nprog)]
     d = scratch('corr_' + name)
     files = emit_cases(d, sessions, per_file=per_file)
     res = run_coqc_many([f for f, _ in files])
@@ -416,3 +416,117 @@ def diagnose(pyops, ctx_id, step):
         f.write('Eval vm_compute in (model_out c0 %d).\n' % step)
     res = run_coqc_many([path])
     return s.outs[step] if step < len(s.outs) else None, res[path][1]
+
+# ------------------------------------------------------------------ directed scenarios
+def _rv(rng, lo=0.3, hi=3.0):
+    return round(rng.uniform(lo, hi), 3)
+
+def scenarios(rng, ctx0=5000):
+    """a fixed set of structured programs (random values) that reach the paths random programs seldom
+    combine: dof before/after uncertainty with correlated infinite-dof pairs and finite-dof inputs, ensembles
+    used partially, caches across set_correlation and across operators, covariance of an elementary number
+    with a result, shortcut returns on every operand role, aliasing, quadrant/branch cases"""
+    out = []
+    def new():
+        s = KSession(ctx0 + len(out)); s.profile = 'scenario'; return s
+    def done(s):
+        s.heap_ok = s.check_heap(); s.close(); out.append(s)
+    inf = math.inf
+    # S1/S2: correlated infinite-dof pair + finite-dof independent input; df before u, and u before df
+    for order in (('df', 'u', 'v'), ('u', 'df', 'v'), ('v', 'df', 'u')):
+        s = new()
+        s.ureal(_rv(rng), _rv(rng, .1, 1), inf, indep=False); s.ureal(_rv(rng), _rv(rng, .1, 1), inf, indep=False)
+        s.ureal(_rv(rng), _rv(rng, .1, 1), rng.choice([3.0, 5.0, 11.5]), indep=True)
+        s.set_corr(round(rng.uniform(-.9, .9), 2), 0, 1)
+        s.bin('mul', ('num', _rv(rng)), ('ref', 0)); s.bin('mul', ('ref', 1), ('num', -_rv(rng)))
+        s.bin('add', ('ref', 4), ('ref', 5)); s.bin('add', ('ref', 6), ('ref', 2))
+        for a in order: s.read(a, 7)
+        s.get_cov(7, 7); s.un('neg', 7); j = len(s.slots) - 1; s.read('u', j); s.read('df', j)
+        done(s)
+    # S3: ensembles with internal correlations, partial use, interleaved with independent inputs
+    for k in range(3):
+        s = new()
+        s.ureal(_rv(rng), _rv(rng, .1, 1), rng.choice([inf, 4.0]), indep=True)
+        s.multiple([_rv(rng) for _ in range(3)], [_rv(rng, .1, 1) for _ in range(3)], rng.choice([3.0, 6.0, inf]))
+        s.ureal(_rv(rng), _rv(rng, .1, 1), 7.0, indep=False)
+        s.multiple([_rv(rng) for _ in range(2)], [_rv(rng, .1, 1), 0.0 if k == 2 else _rv(rng, .1, 1)], 5.0)
+        s.set_corr(round(rng.uniform(-.8, .8), 2), 1, 2); s.set_corr(round(rng.uniform(-.8, .8), 2), 1, 3)
+        s.set_corr(round(rng.uniform(-.8, .8), 2), 5, 6)
+        n = len(s.slots)
+        s.bin('add', ('ref', 1), ('ref', 3)); s.bin('sub', ('ref', n), ('ref', 5)); s.bin('mul', ('ref', n + 1), ('ref', 0))
+        s.bin('add', ('ref', n + 2), ('ref', 4)); s.bin('add', ('ref', n + 3), ('ref', 6))
+        for j in range(n, n + 5): s.read('df', j); s.read('u', j)
+        s.result(n + 4, None); s.read('df', len(s.slots) - 1)
+        done(s)
+    # S4: caches across set_correlation and operators
+    s = new()
+    s.ureal(1.0, 1.0, inf, indep=False); s.ureal(1.0, 1.0, inf, indep=False)
+    s.bin('add', ('ref', 0), ('ref', 1)); s.read('u', 2); s.set_corr(0.5, 0, 1); s.read('u', 2); s.read('v', 2)
+    s.un('neg', 2); s.read('u', len(s.slots) - 1); s.bin('sub', ('num', 0), ('ref', 2)); s.read('u', len(s.slots) - 1)
+    s.un('pos', 2); s.read('u', len(s.slots) - 1)
+    s.bin('add', ('ref', 0), ('ref', 1)); f = len(s.slots) - 1; s.read('u', f); s.result(2, None); s.read('u', len(s.slots) - 1)
+    s.get_cov(2, 2); s.get_cov(f, f)
+    done(s)
+    # S5: result() chains, sensitivities w.r.t. intermediates
+    for k in range(2):
+        s = new()
+        s.ureal(_rv(rng), _rv(rng, .1, 1), 5.0, indep=True); s.ureal(_rv(rng), _rv(rng, .1, 1), inf, indep=True)
+        s.bin('mul', ('ref', 0), ('ref', 1)); s.result(2, 11); s.un('exp', 3) if k else s.un('sqrt', 3); s.result(4, None)
+        s.bin('add', ('ref', 5), ('ref', 0)); s.result(5, 12); s.result(0, 13); s.result(0, 14)
+        for (y, x) in [(6, 3), (6, 5), (4, 3), (6, 0), (5, 3), (3, 5), (6, 2)]:
+            s.sens(y, x); s.ucomp(y, x)
+        s.read('df', 3); s.read('u', 3); s.read('df', 6); s.constant(2.5, None); s.result(len(s.slots) - 1, 15)
+        done(s)
+    # S6: covariance / correlation of an elementary number with a result
+    s = new()
+    s.ureal(_rv(rng), _rv(rng, .1, 1), inf, indep=False); s.ureal(_rv(rng), _rv(rng, .1, 1), inf, indep=False)
+    s.ureal(_rv(rng), _rv(rng, .1, 1), inf, indep=True)
+    s.set_corr(round(rng.uniform(-.9, .9), 2), 0, 1)
+    s.bin('mul', ('ref', 1), ('num', _rv(rng))); s.bin('add', ('ref', 4), ('ref', 2))
+    for (a, b) in [(0, 5), (5, 0), (1, 5), (5, 1), (2, 5), (5, 2), (0, 1), (1, 0), (0, 0), (2, 2), (0, 2)]:
+        s.get_cov(a, b); s.get_corr(a, b)
+    done(s)
+    # S7: shortcut returns on every operand role
+    s = new()
+    s.ureal(_rv(rng), _rv(rng, .1, 1), 4.0, indep=True); s.constant(_rv(rng), None); s.un('exp', 0); s.result(2, None)
+    for a in (0, 1, 2, 3):
+        for f, A, B in [('add', ('ref', a), ('num', 0)), ('add', ('num', 0.0), ('ref', a)), ('mul', ('ref', a), ('num', 1)),
+                        ('mul', ('num', 1.0), ('ref', a)), ('div', ('ref', a), ('num', 1)), ('sub', ('ref', a), ('num', 0.0)),
+                        ('sub', ('num', 0), ('ref', a)), ('pow', ('ref', a), ('num', 1)), ('pow', ('ref', a), ('num', 0)),
+                        ('add', ('ref', a), ('num', -0.0)), ('mul', ('ref', a), ('num', 1.5)), ('div', ('num', 1), ('ref', a))]:
+            s.bin(f, A, B)
+    for j in range(4, len(s.slots), 5):
+        if isinstance(s.slots[j], s.lib.UncertainReal): s.read('u', j)
+    done(s)
+    # S8: aliasing
+    s = new()
+    s.ureal(_rv(rng), _rv(rng, .1, 1), inf, indep=True); s.ureal(_rv(rng), _rv(rng, .1, 1), inf, indep=False)
+    for a in (0, 1):
+        for f in ('mul', 'sub', 'div', 'add', 'pow', 'atan2'):
+            s.bin(f, ('ref', a), ('ref', a))
+    s.bin('mul', ('num', 2.0), ('ref', 0)); s.bin('add', ('ref', 14), ('ref', 0)); s.bin('sub', ('ref', 15), ('ref', 14))
+    for j in range(2, 17): s.sens(j, 0); s.ucomp(j, 1)
+    done(s)
+    # S9: quadrants, branch cases
+    s = new()
+    for x in (1.5, -1.5, 0.0, -0.0):
+        s.ureal(x, 0.1, inf, indep=True)
+    for a in range(4):
+        for b in range(4):
+            s.bin('atan2', ('ref', a), ('ref', b))
+        s.bin('atan2', ('ref', a), ('num', -2.0)); s.bin('atan2', ('num', 0.0), ('ref', a)); s.bin('atan2', ('num', -1.0), ('ref', a))
+        s.un('magnitude', a); s.un('mag_squared', a); s.un('phase', a)
+        s.bin('pow', ('ref', a), ('num', 3)); s.bin('pow', ('ref', a), ('num', -2)); s.bin('pow', ('ref', a), ('num', 0.5))
+        s.bin('pow', ('num', 2.0), ('ref', a)); s.bin('pow', ('num', 0.0), ('ref', a)); s.bin('pow', ('num', -2.0), ('ref', a))
+        s.bin('pow', ('ref', a), ('ref', 0))
+    done(s)
+    # S10: dependent finite-dof singleton, rejected correlations
+    s = new()
+    s.ureal(_rv(rng), _rv(rng, .1, 1), 5.0, indep=False); s.ureal(_rv(rng), _rv(rng, .1, 1), inf, indep=False)
+    s.ureal(_rv(rng), _rv(rng, .1, 1), 9.0, indep=True); s.constant(1.0, None)
+    for (r, a, b) in [(0.3, 0, 1), (0.3, 1, 0), (0.3, 1, 2), (0.3, 2, 1), (0.3, 1, 3), (0.3, 3, 1), (1.0, 1, 1), (0.5, 1, 1), (0.0, 0, 2), (0.2, 0, 0), (1.0, 0, 0)]:
+        s.set_corr(r, a, b)
+    s.bin('add', ('ref', 0), ('ref', 1)); s.bin('add', ('ref', len(s.slots) - 1), ('ref', 2))
+    s.read('df', len(s.slots) - 1); s.read('u', len(s.slots) - 2); s.set_corr(0.4, 1, len(s.slots) - 3)
+    done(s)
+    return out
